@@ -3,23 +3,26 @@ import FastraceModel.Lemmas.Threads
 
 /-!
 Provenance, whole system: in every reachable state, every *sampled* token item held anywhere
-(span handles, adapters, span lines), every command in flight (rings, overflow lists, the
+(span handles, adapters, span lines) carries a trace id from `T`, every *unsampled* one a trace
+id from `U` (the ids supplied to unsampled roots), every command in flight (rings, overflow lists, the
 drain buffer) and every buffered collection carries a trace id from `T`, the trace ids
 supplied to sampled `root` operations so far.  Unsampled items never enter a command.
 -/
 namespace Fastrace
 
-def TokOk (T : List Nat) (tok : Token) : Prop := ∀ it ∈ tok, it.isSampled = true → it.traceId ∈ T
-def SvOk (T : List Nat) (sv : SpanVal) : Prop := ∀ sp, sv = some sp → TokOk T sp.token
-def LineOk (T : List Nat) (l : SpanLine) : Prop := ∀ tok, l.token = some tok → TokOk T tok
-def StackOk (T : List Nat) (st : Stack) : Prop := ∀ l ∈ st.lines, LineOk T l
-def ThOk (T : List Nat) (th : Th) : Prop := StackOk T th.stack ∧ ∀ c ∈ th.pending, CmdOk T c
+/-- every item of the token belongs to a known trace of its own sampling kind -/
+def TokOk (T U : List Nat) (tok : Token) : Prop :=
+  ∀ it ∈ tok, (it.isSampled = true → it.traceId ∈ T) ∧ (it.isSampled = false → it.traceId ∈ U)
+def SvOk (T U : List Nat) (sv : SpanVal) : Prop := ∀ sp, sv = some sp → TokOk T U sp.token
+def LineOk (T U : List Nat) (l : SpanLine) : Prop := ∀ tok, l.token = some tok → TokOk T U tok
+def StackOk (T U : List Nat) (st : Stack) : Prop := ∀ l ∈ st.lines, LineOk T U l
+def ThOk (T U : List Nat) (th : Th) : Prop := StackOk T U th.stack ∧ ∀ c ∈ th.pending, CmdOk T c
 def RingsOk (T : List Nat) (rs : List (Nat × Ring Cmd)) : Prop := ∀ e ∈ rs, ∀ c ∈ e.2.q, CmdOk T c
 
-structure Prov (T : List Nat) (s : Sys) : Prop where
-  spans : ∀ e ∈ s.spans, SvOk T e.2
-  adapters : ∀ e ∈ s.adapters, ∀ sv, e.2.span = some sv → SvOk T sv
-  threads : ∀ t, ThOk T (s.th t)
+structure Prov (T U : List Nat) (s : Sys) : Prop where
+  spans : ∀ e ∈ s.spans, SvOk T U e.2
+  adapters : ∀ e ∈ s.adapters, ∀ sv, e.2.span = some sv → SvOk T U sv
+  threads : ∀ t, ThOk T U (s.th t)
   rxs : RingsOk T s.rxs
   cyc : ∀ cs, s.cyc = some cs → RingsOk T cs.todo ∧ RingsOk T cs.kept ∧ ∀ c ∈ cs.buf, CmdOk T c
   coll : CollOk T s.coll
@@ -170,8 +173,8 @@ end ring
 
 /-! ### state plumbing -/
 
-theorem Prov.setTh {T : List Nat} {s : Sys} (h : Prov T s) (t : Nat) (th : Th) (hth : ThOk T th) :
-    Prov T (s.setTh t th) where
+theorem Prov.setTh {T U : List Nat} {s : Sys} (h : Prov T U s) (t : Nat) (th : Th) (hth : ThOk T U th) :
+    Prov T U (s.setTh t th) where
   spans := h.spans
   adapters := h.adapters
   threads := by
@@ -183,7 +186,7 @@ theorem Prov.setTh {T : List Nat} {s : Sys} (h : Prov T s) (t : Nat) (th : Th) (
   cyc := h.cyc
   coll := h.coll
 
-theorem Prov.putCtr {T : List Nat} {s : Sys} (h : Prov T s) (t : Nat) (c : Ctr) : Prov T (s.putCtr t c) where
+theorem Prov.putCtr {T U : List Nat} {s : Sys} (h : Prov T U s) (t : Nat) (c : Ctr) : Prov T U (s.putCtr t c) where
   spans := h.spans
   adapters := h.adapters
   threads := by
@@ -195,8 +198,8 @@ theorem Prov.putCtr {T : List Nat} {s : Sys} (h : Prov T s) (t : Nat) (c : Ctr) 
   cyc := h.cyc
   coll := h.coll
 
-theorem Prov.withSpans {T : List Nat} {s : Sys} (h : Prov T s) (sp : List (String × SpanVal))
-    (hsp : ∀ e ∈ sp, SvOk T e.2) : Prov T { s with spans := sp } where
+theorem Prov.withSpans {T U : List Nat} {s : Sys} (h : Prov T U s) (sp : List (String × SpanVal))
+    (hsp : ∀ e ∈ sp, SvOk T U e.2) : Prov T U { s with spans := sp } where
   spans := hsp
   adapters := h.adapters
   threads := h.threads
@@ -204,24 +207,24 @@ theorem Prov.withSpans {T : List Nat} {s : Sys} (h : Prov T s) (sp : List (Strin
   cyc := h.cyc
   coll := h.coll
 
-theorem Prov.setSpan {T : List Nat} {s : Sys} (h : Prov T s) (v : String) (sv : SpanVal) (hsv : SvOk T sv) :
-    Prov T { s with spans := assocSet s.spans v sv } :=
+theorem Prov.setSpan {T U : List Nat} {s : Sys} (h : Prov T U s) (v : String) (sv : SpanVal) (hsv : SvOk T U sv) :
+    Prov T U { s with spans := assocSet s.spans v sv } :=
   h.withSpans _ (fun e he => by
     rcases mem_assocSet he with he | rfl
     · exact h.spans e he
     · exact hsv)
 
-theorem Prov.delSpan {T : List Nat} {s : Sys} (h : Prov T s) (v : String) :
-    Prov T { s with spans := assocDel s.spans v } :=
+theorem Prov.delSpan {T U : List Nat} {s : Sys} (h : Prov T U s) (v : String) :
+    Prov T U { s with spans := assocDel s.spans v } :=
   h.withSpans _ (fun e he => h.spans e (mem_assocDel he))
 
-theorem Prov.getSpan {T : List Nat} {s : Sys} (h : Prov T s) {v : String} {sv : SpanVal}
-    (hg : assocGet s.spans v = some sv) : SvOk T sv := by
+theorem Prov.getSpan {T U : List Nat} {s : Sys} (h : Prov T U s) {v : String} {sv : SpanVal}
+    (hg : assocGet s.spans v = some sv) : SvOk T U sv := by
   obtain ⟨e, he, rfl⟩ := assocGet_mem hg
   exact h.spans e he
 
-theorem Prov.withAdapters {T : List Nat} {s : Sys} (h : Prov T s) (ads : List (String × Adapter))
-    (ha : ∀ e ∈ ads, ∀ sv, e.2.span = some sv → SvOk T sv) : Prov T { s with adapters := ads } where
+theorem Prov.withAdapters {T U : List Nat} {s : Sys} (h : Prov T U s) (ads : List (String × Adapter))
+    (ha : ∀ e ∈ ads, ∀ sv, e.2.span = some sv → SvOk T U sv) : Prov T U { s with adapters := ads } where
   spans := h.spans
   adapters := ha
   threads := h.threads
@@ -229,8 +232,8 @@ theorem Prov.withAdapters {T : List Nat} {s : Sys} (h : Prov T s) (ads : List (S
   cyc := h.cyc
   coll := h.coll
 
-theorem Prov.withLspans {T : List Nat} {s : Sys} (h : Prov T s) (x : List (String × LocalSpansVal)) :
-    Prov T { s with lspans := x } where
+theorem Prov.withLspans {T U : List Nat} {s : Sys} (h : Prov T U s) (x : List (String × LocalSpansVal)) :
+    Prov T U { s with lspans := x } where
   spans := h.spans
   adapters := h.adapters
   threads := h.threads
@@ -238,11 +241,11 @@ theorem Prov.withLspans {T : List Nat} {s : Sys} (h : Prov T s) (x : List (Strin
   cyc := h.cyc
   coll := h.coll
 
-theorem svOk_none (T : List Nat) : SvOk T none := fun _ h => by cases h
+theorem svOk_none (T U : List Nat) : SvOk T U none := fun _ h => by cases h
 
 /-! ### the command channel -/
 
-theorem Prov.register {T : List Nat} {s s' : Sys} (h : Prov T s) (t : Nat) (hr : s.register t = some s') : Prov T s' := by
+theorem Prov.register {T U : List Nat} {s s' : Sys} (h : Prov T U s) (t : Nat) (hr : s.register t = some s') : Prov T U s' := by
   unfold Sys.register at hr
   split at hr
   · simp only [Option.some.injEq] at hr; subst hr; exact h
@@ -258,7 +261,7 @@ theorem Prov.register {T : List Nat} {s s' : Sys} (h : Prov T s) (t : Nat) (hr :
       · exact h.rxs e he
       · simp [Ring.new]
 
-theorem Prov.ringOf {T : List Nat} {s : Sys} (h : Prov T s) {t : Nat} {r : Ring Cmd} (hr : s.ringOf t = some r) :
+theorem Prov.ringOf {T U : List Nat} {s : Sys} (h : Prov T U s) {t : Nat} {r : Ring Cmd} (hr : s.ringOf t = some r) :
     ∀ c ∈ r.q, CmdOk T c := by
   unfold Sys.ringOf at hr
   cases hc : s.cyc with
@@ -278,8 +281,8 @@ theorem Prov.ringOf {T : List Nat} {s : Sys} (h : Prov T s) {t : Nat} {r : Ring 
       simp only [Option.orElse] at hr
       exact h2.natGet hr
 
-theorem Prov.setRing {T : List Nat} {s : Sys} (h : Prov T s) (t : Nat) (r : Ring Cmd) (hr : ∀ c ∈ r.q, CmdOk T c) :
-    Prov T (s.setRing t r) := by
+theorem Prov.setRing {T U : List Nat} {s : Sys} (h : Prov T U s) (t : Nat) (r : Ring Cmd) (hr : ∀ c ∈ r.q, CmdOk T c) :
+    Prov T U (s.setRing t r) := by
   unfold Sys.setRing
   cases hc : s.cyc with
   | none =>
@@ -302,8 +305,8 @@ theorem Prov.setRing {T : List Nat} {s : Sys} (h : Prov T s) (t : Nat) (r : Ring
         exact ⟨h1, h2.natSet t r hr, h3⟩
       · exact h
 
-theorem Prov.sendCmd {T : List Nat} {s : Sys} (h : Prov T s) (t : Nat) (cmd : Cmd) (forced : Bool) (hc : CmdOk T cmd) :
-    Prov T (s.sendCmd t cmd forced) := by
+theorem Prov.sendCmd {T U : List Nat} {s : Sys} (h : Prov T U s) (t : Nat) (cmd : Cmd) (forced : Bool) (hc : CmdOk T cmd) :
+    Prov T U (s.sendCmd t cmd forced) := by
   unfold Sys.sendCmd
   cases hreg : s.register t with
   | none => exact h
@@ -322,8 +325,8 @@ theorem Prov.sendCmd {T : List Nat} {s : Sys} (h : Prov T s) (t : Nat) (cmd : Cm
       · have := Ring.send_all (CmdOk T) r (s1.th t).pending cmd hrq hth.2 hc
         exact (h1.setRing t _ this.1).setTh t _ ⟨hth.1, this.2⟩
 
-theorem Prov.submitSpans {T : List Nat} {s : Sys} (h : Prov T s) (t : Nat) (spans : SpanSet) (tok : Token)
-    (ht : TokOk T tok) : Prov T (s.submitSpans t spans tok) := by
+theorem Prov.submitSpans {T U : List Nat} {s : Sys} (h : Prov T U s) (t : Nat) (spans : SpanSet) (tok : Token)
+    (ht : TokOk T U tok) : Prov T U (s.submitSpans t spans tok) := by
   unfold Sys.submitSpans
   dsimp only
   split
@@ -331,22 +334,22 @@ theorem Prov.submitSpans {T : List Nat} {s : Sys} (h : Prov T s) (t : Nat) (span
   · apply h.sendCmd
     intro it hit
     simp only [List.mem_filter] at hit
-    exact ht it hit.1 hit.2
+    exact (ht it hit.1).1 hit.2
 
-theorem Prov.newSpan {T : List Nat} {s : Sys} (h : Prov T s) (t : Nat) (v name : String) (tok : Token)
-    (cid : Option Nat) (ht : TokOk T tok) : Prov T (s.newSpan t v name tok cid) := by
+theorem Prov.newSpan {T U : List Nat} {s : Sys} (h : Prov T U s) (t : Nat) (v name : String) (tok : Token)
+    (cid : Option Nat) (ht : TokOk T U tok) : Prov T U (s.newSpan t v name tok cid) := by
   unfold Sys.newSpan
   dsimp only
   exact (h.putCtr t _).setSpan v _ (fun sp hsp => by cases hsp; exact ht)
 
-theorem tokOk_issue {T : List Nat} {sp : SpanInner} (h : TokOk T sp.token) : TokOk T (issueToken sp) := by
-  intro it hit hs
+theorem tokOk_issue {T U : List Nat} {sp : SpanInner} (h : TokOk T U sp.token) : TokOk T U (issueToken sp) := by
+  intro it hit
   simp only [issueToken, List.mem_map] at hit
   obtain ⟨it0, h0, rfl⟩ := hit
-  exact h it0 h0 hs
+  exact h it0 h0
 
-theorem Prov.dropSpanVal {T : List Nat} {s : Sys} (h : Prov T s) (t : Nat) (sv : SpanVal) (hsv : SvOk T sv) :
-    Prov T (s.dropSpanVal t sv) := by
+theorem Prov.dropSpanVal {T U : List Nat} {s : Sys} (h : Prov T U s) (t : Nat) (sv : SpanVal) (hsv : SvOk T U sv) :
+    Prov T U (s.dropSpanVal t sv) := by
   unfold Sys.dropSpanVal
   cases sv with
   | none => exact h
